@@ -182,6 +182,26 @@ func (e *Engine) doAssert(c Term, tag string) {
 	e.solver.Push()
 	e.solver.Assert(Not(c))
 	r := e.solver.Check()
+	if r == "sat" && e.cexPrefer != nil && len(o.Cex) < 3 {
+		// prefer a witness with extra properties (e.g. an allocation large enough to be measured natively)
+		e.solver.Push()
+		e.solver.Assert(*e.cexPrefer)
+		if e.solver.Check() == "sat" {
+			o.Violated++
+			cx := Cex{Path: e.pathString(), Kinds: e.kinds}
+			if v, err := e.modelVector(); err == nil {
+				cx.Vector = v
+			} else {
+				cx.Extra = err.Error()
+			}
+			o.Cex = append(o.Cex, cx)
+			e.solver.Pop()
+			e.solver.Pop()
+			return
+		}
+		e.solver.Pop()
+		r = e.solver.Check()
+	}
 	switch r {
 	case "unsat":
 		o.Discharged++
@@ -368,6 +388,11 @@ func init() {
 			}
 		}
 		e.observed = append(e.observed, sb.String())
+		return nil
+	})
+	R("AllocCheck", func(e *Engine, fr *frame, a []Value) Value { return nil })
+	R("AllocSampling", func(e *Engine, fr *frame, a []Value) Value {
+		e.allocSmall, e.allocLarge = int64(a[0].(Term).Int()), a[1].(Term).Int()
 		return nil
 	})
 	R("AllocBudget", func(e *Engine, fr *frame, a []Value) Value { e.allocBudget = int64(a[0].(Term).Int()); return nil })
